@@ -537,7 +537,6 @@ func m2(idx int64, r *rand.Rand) {
 	}
 }
 
-
 // ------------------------------------------------------------------ M3: the gate's limit is the limit in force
 //
 // A counting gate enforces the limit that is in force, so the limiter has to hand each new estimate to the
